@@ -451,7 +451,7 @@ def repl_stream_parses(m):
                 if w == 'election':
                     continue    # literal-selected alternatives: checked by C04.b
                 probs, _ = wire.check_template(m.prog, g, top)
-                req = [x for x in probs if x.startswith('required')]
+                req = [x for x in probs if x.startswith('required') or 'refused by the parser' in x]
                 if req:
                     bad.append('%r: %s' % (g.text(), req))
         if p.others:
